@@ -30,9 +30,10 @@ Extend(d)  == IF \E j \in Idx : d = DataHalf(j) THEN ParHalf(CHOOSE j \in Idx : 
               ELSE [p \in 1..Len(d) |-> <<"enc", d, p>>]
 Recover(r) == IF \E j \in Idx : r = ParHalf(j) THEN DataHalf(CHOOSE j \in Idx : r = ParHalf(j))
               ELSE [p \in 1..Len(r) |-> <<"dec", r, p>>]
-Decoded(h, side) == IF side = "left" THEN h \o Extend(h) ELSE Recover(h) \o h
+\* side "mem": an in-memory Row { shares } handed to Row::verify directly (nothing is rebuilt)
+Decoded(h, side) == IF side = "mem" THEN h ELSE IF side = "left" THEN h \o Extend(h) ELSE Recover(h) \o h
 
-HonestHalf(i, side) == IF side = "left" THEN DataHalf(i) ELSE ParHalf(i)
+HonestHalf(i, side) == IF side = "mem" THEN RowOf(i) ELSE IF side = "left" THEN DataHalf(i) ELSE ParHalf(i)
 
 \* algorithmic layer: from_raw + verify (collision-free root comparison)
 RowCode(i, h, side) == Decoded(h, side) = RowOf(i)
@@ -67,7 +68,27 @@ Edit ==
        \/ kase' = Mk("edit", <<"short">>, SubSeq(HH, 1, K - 1), kase.side)
        \/ kase' = Mk("edit", <<"long">>, HH \o <<HH[1]>>, kase.side)
 
-Next == Honest \/ Edit
+\* In-memory rows of the wrong length or content: the committed row plus surplus shares, too short rows, ...
+\* (Row::verify must compare the root of *all* the shares it is given; a tree over another number of
+\* leaves is another term).  Enumerated once per row index (from the "left" seed).
+FullRow ==
+    /\ kase.cls = "init" /\ kase.side = "left"
+    /\ LET R == RowOf(kase.i) IN
+       \/ kase' = Mk("fullrow", <<"none">>, R, "mem")
+       \/ \E j \in Idx, c \in Idx : kase' = Mk("fullrow", <<"extra1", j, c>>, R \o <<CellT(j, c)>>, "mem")
+       \/ kase' = Mk("fullrow", <<"dup_tail">>, R \o <<R[W]>>, "mem")
+       \/ kase' = Mk("fullrow", <<"extra_half_parity">>, R \o ParHalf(kase.i), "mem")
+       \/ kase' = Mk("fullrow", <<"extra_half_data">>, R \o DataHalf(kase.i), "mem")
+       \/ kase' = Mk("fullrow", <<"twice">>, R \o R, "mem")
+       \/ kase' = Mk("fullrow", <<"short1">>, SubSeq(R, 1, W - 1), "mem")
+       \/ kase' = Mk("fullrow", <<"short_first">>, SubSeq(R, 2, W), "mem")
+       \/ kase' = Mk("fullrow", <<"data_half_only">>, DataHalf(kase.i), "mem")
+       \/ kase' = Mk("fullrow", <<"empty">>, <<>>, "mem")
+       \/ \E j \in Idx \ {kase.i} : kase' = Mk("fullrow", <<"other_row", j>>, RowOf(j), "mem")
+       \/ \E p \in 1..W, p2 \in 1..W : p < p2 /\ kase' = Mk("fullrow", <<"swap", p - 1, p2 - 1>>, [R EXCEPT ![p] = R[p2], ![p2] = R[p]], "mem")
+       \/ \E p \in 1..W : kase' = Mk("fullrow", <<"alt", p - 1>>, [R EXCEPT ![p] = <<"alt", R[p][2], R[p][3]>>], "mem")
+
+Next == Honest \/ Edit \/ FullRow
 
 RowSound == kase.cls # "init" => Conforms(RowDemand(kase.i, kase.h, kase.label), Verdict(RowCode(kase.i, kase.h, kase.label)))
 HonestDecodes == kase.cls = "honest" => Decoded(kase.h, kase.label) = RowOf(kase.i)
